@@ -405,7 +405,8 @@ def judge_roundtrip(ctx, st, which, W, R, data, op, fs):
     ctx.check(d is None, "readback_differs", lambda: f"{which}: read-back object differs from the written one: {d}",
               key={**key, "field": (d or "").split(":")[0].split("[")[0].split(".")[1] if d else ""})
     mw = jsonish({k: v for k, v in W.meta.items()})
-    mr = jsonish({k: v for k, v in R.meta.items()})
+    # (the entry that tells the reader which class to build may be added by the writer when the object lacks it)
+    mr = jsonish({k: v for k, v in R.meta.items() if not (k == "processing_method" and k not in W.meta)})
     ctx.check(canon(mw) == canon(mr), "meta_differs",
               lambda: f"{which}: meta differs after the round trip: {sem_diff(mw, mr)}", key=key)
     # 3. second generation is byte-identical in the numeric block
